@@ -233,8 +233,8 @@ theorem cardGo_spec {A : Arr} {n : Nat} (h : WFo A n) (w : Bool) (F : Nat) (hF :
       · rw [getD_set, if_pos ⟨rfl, hps⟩]
       · intro q x hx
         rw [getD_set]
-        have hqp : ¬ (p = q ∧ _) := fun hh => by rw [← hh.1, hcp] at hx; cases hx
-        rw [if_neg hqp]
+        have hqp : p ≠ q := fun hh => by rw [← hh, hcp] at hx; cases hx
+        rw [if_neg (fun hh => hqp hh.1)]
         exact m2 _ _ (m1 _ _ hx)
     · -- cached
       simp only
